@@ -234,4 +234,53 @@ theorem text_contains_breaking (ds : List Diff) (h : breakingCount ds > 0) (d : 
   simp only [List.mem_append]
   exact Or.inl (Or.inr hmem)
 
+
+/-! ### the three reports describe the same set: every format reads the list AFTER the ignore file was applied -/
+
+/-- the breaking-only report under an ignore file: its Breaking section lists exactly the Breaking entries of the report
+    that the ignore file does not name (as a multiset of rendered lines) — an ignored entry cannot be printed, whatever
+    the format flags (the round-5 seeded change printed the unfiltered list under `-b`) -/
+theorem breaking_only_respects_ignores (ds ig : List Diff) (hc : ∀ d ∈ ds, Canonical d) :
+    (reportChanges (filterIgnores ds ig) Compat.Breaking).Perm
+      ((ds.filter (fun d => decide (d ∉ ig) && decide (d.compat = Compat.Breaking))).map Diff.render) := by
+  have h := sections_perm (filterIgnores ds ig) Compat.Breaking
+  rw [ignore_sub ds ig hc, List.filter_filter] at h
+  have : (fun d : Diff => decide (d.compat = Compat.Breaking) && decide (d ∉ ig)) =
+      (fun d => decide (d ∉ ig) && decide (d.compat = Compat.Breaking)) := by
+    funext d; exact Bool.and_comm _ _
+  rw [this] at h
+  rw [ignore_sub ds ig hc]
+  exact h
+
+/-- `-b` with the whole report as ignore file: the fixed OK line, exit 0 -/
+theorem breaking_only_ignore_all (ds : List Diff) :
+    execute false true ds ds = (.text ["compatibility test OK. No breaking changes identified."], false) := by
+  unfold execute
+  simp [ignore_all, reportCompatibility, breakingCount]
+
+/-- the JSON report, the text report and the breaking-only report are all computed from `filterIgnores ds ig`: the JSON
+    report IS that list; the exit status of the two text reports is the same function of it -/
+theorem formats_read_the_filtered_list (ds ig : List Diff) :
+    (execute true false ds ig).1 = .json (filterIgnores ds ig) ∧
+    (execute false false ds ig).2 = (execute false true ds ig).2 := by
+  refine ⟨by simp [execute], ?_⟩
+  have h1 := exit_iff_txt ds ig
+  have h2 := exit_iff_breaking_only ds ig
+  cases ha : (execute false false ds ig).2 <;> cases hb : (execute false true ds ig).2 <;> simp_all
+
+/-- an ignored Breaking entry never decides the exit status of `-b`: with every Breaking entry ignored the command exits 0 -/
+theorem breaking_only_exit_zero_when_breaking_ignored (ds ig : List Diff) (hc : ∀ d ∈ ds, Canonical d)
+    (h : ∀ d ∈ ds, d.compat = Compat.Breaking → d ∈ ig) : (execute false true ds ig).2 = false := by
+  have hz : breakingCount (filterIgnores ds ig) = 0 := by
+    unfold breakingCount
+    rw [List.length_eq_zero_iff, List.filter_eq_nil_iff]
+    intro d hd
+    have := (ignore_mem ds ig hc d).mp hd
+    intro hb
+    exact this.2 (h d this.1 (by simpa using hb))
+  have := exit_iff_breaking_only ds ig
+  cases he : (execute false true ds ig).2
+  · rfl
+  · rw [he] at this; have := this.mp rfl; omega
+
 end Gs.Props.C15
